@@ -79,6 +79,13 @@ def run(ctx):
     ctx.oblig(ok, {"sentinel": hex(const_int(ss["r"]["a"])), "at": show(l)}, "0xF025 at orig + n")
     if not ok:
         ctx.violation("sentinel", sp_file_line(ss.get("sp")), "the implicit HALT is stored as %s at `%s` (expected 0xF025 at orig + number of image words)" % (hex(const_int(ss["r"]["a"])), show(l)))
+    # ... unconditionally: every path to the Ok return stores it
+    rets_ = [b for b in fr.live_blocks() if fr.term(b)["k"] == "return"]
+    skipping = fr.reachable(0, avoid={sb}) & set(rets_)
+    ctx.oblig(not skipping, {"sentinel": "stored on every path to the return"}, "must-pass-through")
+    if skipping:
+        ctx.violation("sentinel-conditional", sp_file_line(ss.get("sp")), "the implicit HALT after the image is stored only on some paths (lines %s avoid it): "
+                      "an image the condition excludes runs on into zeroed memory instead of halting" % fr.path_lines(fr.path(0, skipping, avoid={sb})))
     # copy: mem[orig .. orig + n] <- raw[1..]
     cp = [(b, t) for b, t, c in fr.calls() if c and c.endswith("clone_from_slice")]
     ctx.need(len(cp) == 1, "image copy in from_raw")
@@ -304,6 +311,13 @@ def run(ctx):
     ctx.oblig(ok, {"stdin buffer": "1 byte"}, "array length")
     if not ok:
         ctx.violation("stdin-buffer", rb.file_line(), "the stdin reader does not use a one-byte buffer")
+    # the byte is obtained with read_exact: a plain read() reports end of input as Ok(0), which would hand the program a phantom NUL
+    rd = [c for b, t, c in rb.calls() if c and ("std::io::Read" in c or "io::Read>" in c)]
+    ok = bool(rd) and all(c.endswith("::read_exact") for c in rd)
+    ctx.oblig(ok, {"stdin read": [short(c).rsplit("::", 1)[-1] for c in rd]}, "read_exact only")
+    if not ok:
+        ctx.violation("stdin-read-api", rb.file_line(), "the stdin reader obtains its byte with %s instead of read_exact: at end of input no error is raised, "
+                      "GETC/IN return 0 without consuming anything and the program runs on" % [short(c).rsplit("::", 1)[-1] for c in rd])
     ex1 = [const_int(t["args"][0]) for b, t, c in rb.calls() if c == "std::process::exit"]
     ok = ex1 == [1]
     ctx.oblig(ok, {"end of input": "exit(%s)" % ex1}, "status 1")
